@@ -136,6 +136,9 @@ def run(tier):
     from .. import t0access
     assumed = _json.load(open(_os.path.join(build.VERIF, 'rules', 't0_assumed_sites.json')))
     t0access.check_all(chk, list(t0.INTERPRETERS), FIELD_RANGES, assumed)
+    from .. import t0kernel
+    nk = sum(t0kernel.check(chk, key) for key in t0.INTERPRETERS)
+    chk.floor('kernel natives verified', nk, 150)
     suites_num_guard(chk)
     from . import c02
     c02.length_gates(chk)
